@@ -617,7 +617,7 @@ INTEGER_decode_uper(const asn_codec_ctx_t *opt_codec_ctx,
 			st->size = 1;
 		} else if(ct->flags & APC_CONSTRAINED && ct->range_bits >= 0) {
 			size_t size = (ct->range_bits + 7) >> 3;
-			st->buf = (uint8_t *)MALLOC(1 + size + 1);
+			st->buf = (uint8_t *)CALLOC(1, 1 + size + 1);
 			if(!st->buf) ASN__DECODE_FAILED;
 			st->size = size;
 		}
